@@ -304,6 +304,8 @@ def check_overlap_surfaces(ctx):
 
 
 def check(ctx):
+    from ..model import check_strategies_read_the_name_at_call_time
+    check_strategies_read_the_name_at_call_time(ctx, 'R1-name-at-call-time')
     check_driver_symmetry(ctx)
     check_pairs(ctx)
     check_fill_and_buffer(ctx)
